@@ -205,6 +205,7 @@ def _inline_expression(fn, B, blk, idx, h, body, vidx, args, pids):
     cline = call.get("iline") or _line(call)
     for e in els:
         e["inlined"] = h["name"]
+        e["siteloc"] = call.get("siteloc") or call.get("loc", "")
         e["iline"] = cline
     value = callee_ref([body["id"], vidx])
     wrapper = {"cls": "ImplicitCastExpr", "op": "NoOp", "kids": [value], "ty": call.get("ty"), "loc": call.get("loc", ""), "text": call.get("text", ""), "inlined": h["name"]}
@@ -473,6 +474,7 @@ def _inline_one(fn, blk, idx, h, serial, repo):
                     else:
                         dd["id"] = vbase + dd["id"] % 90000
             e["inlined"] = h["name"]
+            e["siteloc"] = call.get("siteloc") or call.get("loc", "")
             e["iscale"] = scale
             # position for rules that order statements by source line: the call's line, then the helper's own order
             e["iline"] = cline + (max(0, _line(e) - hfirst) + 1) * scale
